@@ -24,6 +24,9 @@ def run(ctx):
     ck.rule("R31a", "a guard exits successfully only if it is cost-exempt or consumed exactly its declared cost")
     ck.rule("R31b", "guard exit restores the full entry checkpoint once, replaces the program's value by nil, charges 0; guard entry records checkpoint and expected cost and schedules exactly one ExitGuard")
     ck.rule("R31c", "nesting limit, cost-exempt predicate and extension table")
+    ck.rule("R31d", "a full restore resets every count to its checkpointed value (field coverage and order of the restore)")
+    from rules import c12
+    c12.check_restores(ck, cr, "R31d")
 
     eg = cr.fn(RP + "exit_guard")
     ck.analysed(eg)
